@@ -21,7 +21,7 @@ ASSUMPTIONS = ["permutations respect what Python itself requires (an alias after
                "hash seeds are sampled (3-4 per program), not enumerated"]
 COMPONENTS = {"real": ["twosigma.memento (all)", "fresh CPython interpreters with real hash randomisation seeds", "import system", "filesystem store on tmpfs"],
               "stub": ["generated user program", "uuid4, clock"]}
-REACH = ["programs", "programs_with_set_constants", "second_node_calls", "nodes"]
+REACH = ["programs_with_two_packages", "programs", "programs_with_set_constants", "second_node_calls", "nodes"]
 
 
 def cases(tier, seed):
@@ -31,7 +31,7 @@ def cases(tier, seed):
         rng = core.stream(s, "gen")
         progs = []
         for i in range(PER_BATCH[tier]):
-            F = {"p_hidden": 0.0, "p_setc": 0.6}
+            F = {"p_hidden": 0.0, "p_setc": 0.6, "p_two_packages": 0.4}
             p = progen.gen_program(rng, F)
             roots = [n["id"] for n in p["nodes"] if n["kind"] == "memento" and n["explicit"] is None]
             calls = [[roots[rng.randrange(len(roots))], rng.choice([0, 1, 2])] for _ in range(rng.randrange(1, 4))]
@@ -85,6 +85,8 @@ def execute(case):
                 if "error" in r:
                     raise core.HarnessError("program %d failed on node %d: %s" % (idx, j, r["error"]))
             p = pj["prog"]
+            if any(p.get("pkg") or []):
+                stats["programs_with_two_packages"] = stats.get("programs_with_two_packages", 0) + 1
             if any(n["setc"] is not None for n in p["nodes"]):
                 stats["programs_with_set_constants"] = stats.get("programs_with_set_constants", 0) + 1
             v0 = rs[0]["versions"]
